@@ -29,7 +29,7 @@ from modelx.core.formula import (
     HasFormula, create_closure
 )
 from modelx.core.util import is_valid_name
-from modelx.core.errors import NoneReturnedError
+from modelx.core.errors import NoneReturnedError, DeletedObjectError
 from modelx.core.node import ItemFactory, ItemFactoryImpl
 from modelx.core.namespace import BaseNamespaceReferrer
 
@@ -760,6 +760,9 @@ class CellsImpl(*_cells_impl_base):
         return self.system.executor.eval_node(node)
 
     def call(self, *args, **kwargs):
+        if self.interface._impl is not self:
+            # Formulas referring to this cells are bound to this method
+            raise DeletedObjectError("the object has been deleted")
         node = get_node(self, args, kwargs)
         return self.system.executor.eval_node(node)
 
